@@ -156,11 +156,11 @@ inline Expect expect(const Tag &t, const Z &v, const Z &w, std::string &cls)
 	if (!eq)
 	{
 		if (!t.covered) return X_FREE;
-		if ((t.k == K_ELEM || t.k == K_COM) && mpz_sgn(w) > 0 && mpz_cmp(w, *t.P) < 0)
+		if ((t.k == K_ELEM || t.k == K_COM) && mpz_sgn(w.v) > 0 && mpz_cmp(w, *t.P) < 0)
 		{
 			// in range: is it a member of the order-q subgroup?
 			mpz_powm(a, w, *t.Q, *t.P);
-			if (mpz_cmp_ui(a, 1UL)) cls = "nonmember";
+			if (mpz_cmp_ui(a.v, 1UL)) cls = "nonmember";
 		}
 		return X_REJECT;
 	}
